@@ -290,6 +290,29 @@ pub fn run_traced(c: &StreamCase, full_out: Option<&[u8]>, size_done: bool) -> T
     }
 }
 
+/// C05 contract only (no shape, no oracle): the streaming result against an already computed one-shot result.
+pub fn check_against_oneshot(c: &StreamCase, data: &[u8], one: &api::Outcome, prop: &str, rep: &mut Report) -> bool {
+    let r = api::stream_run(data, &c.cuts, &api::options(c.opt, c.memlimit.map(|m| m as usize), false));
+    let mut vs = vec![];
+    if r.verdict == Verdict::Panic {
+        vs.push(format!("panic in the streaming decoder: {}", r.msg));
+    } else if (r.verdict == Verdict::Ok) != (one.verdict == Verdict::Ok) {
+        vs.push(format!("streaming verdict {:?} ({}) differs from one-shot verdict {:?} ({})", r.verdict, r.msg, one.verdict, one.msg));
+    } else if r.verdict == Verdict::Ok && r.out != one.out {
+        vs.push(format!("streaming output ({} bytes) differs from one-shot output ({} bytes)", r.out.len(), one.out.len()));
+    } else if r.zero_progress_at.is_some() && one.verdict == Verdict::Ok {
+        vs.push("write returned Ok(0) for non-empty input while the stream was neither failed nor complete".into());
+    }
+    rep.eval(hash_of(&(data.len(), &c.cuts, &c.origin)), true);
+    if !vs.is_empty() {
+        let mut cj = serde_json::to_value(c).unwrap();
+        cj["kind"] = json!("stream");
+        rep.violation(prop, vs.join("; "), cj);
+        return false;
+    }
+    true
+}
+
 pub fn check_case(c: &StreamCase, prop: &str, rep: &mut Report, trace: &mut Option<Vec<String>>) -> bool {
     let data = unhex(&c.data_hex);
     let mut vs: Vec<String> = vec![];
@@ -789,19 +812,15 @@ pub fn run_c05(prop: &str, seed: u64, nstreams: usize, nsyms: usize, trace_path:
         rep.add(if far { "expensive_symbol_bytes_far" } else { "expensive_symbol_bytes" }, cost as u64);
         let n = g.data.len();
         let start = n - cost as usize;
-        let mut none = None;
+        let one = api::lzma_bytes(&g.data, &api::options(g.opt, None, false));
+        let dh = hex(&g.data);
         for a in 0..=(cost as usize) {
             for k in [0usize, 1, 2, 5, 19, 20] {
                 let mut cuts = vec![start.saturating_sub(3), start + a, (start + a + k).min(n)];
                 cuts.sort();
-                let c = StreamCase { data_hex: hex(&g.data), opt: g.opt, memlimit: None, allow_incomplete: false, cuts, origin: g.origin.clone(), mode: "c05".into(), extra_writes: vec![] };
-                check_case(&c, prop, rep, &mut none);
+                let c = StreamCase { data_hex: dh.clone(), opt: g.opt, memlimit: None, allow_incomplete: false, cuts, origin: g.origin.clone(), mode: "c05".into(), extra_writes: vec![] };
+                check_against_oneshot(&c, &g.data, &one, prop, rep);
             }
-        }
-        // one run traced for TLC (the shape has thousands of symbols: keep it to a single trace)
-        if !far {
-            let c = StreamCase { data_hex: hex(&g.data), opt: g.opt, memlimit: None, allow_incomplete: false, cuts: vec![start + 1, start + cost as usize / 2], origin: g.origin.clone(), mode: "c05".into(), extra_writes: vec![] };
-            check_case(&c, prop, rep, &mut trace);
         }
         if rep.samples.len() < 6 {
             rep.sample(json!({"origin": g.origin, "bytes": n, "marker_cost_bytes": cost, "cuts": "every offset inside the marker x second cut {0,1,2,5,19,20} bytes later"}));
@@ -813,13 +832,14 @@ pub fn run_c05(prop: &str, seed: u64, nstreams: usize, nsyms: usize, trace_path:
         let end = g.bounds[ti];
         let start = end - cost as usize;
         let n = g.data.len();
-        let mut none = None;
+        let one = api::lzma_bytes(&g.data, &api::options(g.opt, None, false));
+        let dh = hex(&g.data);
         for a in 0..=(cost as usize) {
             for k in [0usize, 1, 3, 19, 20, 21] {
                 let mut cuts = vec![start.saturating_sub(2), start + a, (start + a + k).min(n)];
                 cuts.sort();
-                let c = StreamCase { data_hex: hex(&g.data), opt: g.opt, memlimit: None, allow_incomplete: false, cuts, origin: g.origin.clone(), mode: "c05".into(), extra_writes: vec![] };
-                check_case(&c, prop, rep, &mut none);
+                let c = StreamCase { data_hex: dh.clone(), opt: g.opt, memlimit: None, allow_incomplete: false, cuts, origin: g.origin.clone(), mode: "c05".into(), extra_writes: vec![] };
+                check_against_oneshot(&c, &g.data, &one, prop, rep);
             }
         }
         rep.sample(json!({"origin": g.origin, "bytes": n, "target_cost_bytes": cost, "cuts": "every offset inside the expensive match x second cut {0,1,3,19,20,21} bytes later"}));
